@@ -230,8 +230,10 @@ class ZMQEventLoop(EventLoop):
         return True
 
     def _entering_idle(self) -> None:
-        for callback in list(self._idle_callbacks.values()):
-            callback()
+        for handle, callback in list(self._idle_callbacks.items()):
+            # a callback removed by an earlier one in this pass is not called
+            if handle in self._idle_callbacks:
+                callback()
 
     def run(self) -> None:
         """
